@@ -222,6 +222,27 @@ def impl_payload(net, entry, s):
         return "!" + exn_tag(e)
 
 
+def impl_astext(net, entry, s):
+    """as_text() of a returned public key / electrum wallet, as utf-32-be bytes"""
+    try:
+        o = parse_call(net, entry, s)
+        if o is None:
+            return "N"
+        k = kind_of(o)
+        if (k == "K" and o.secret_exponent() is None) or k == "E":
+            return canon(u32(o.as_text()))
+        return "!E_OTHER"
+    except Exception as e:
+        return "!" + exn_tag(e)
+
+
+def mk_astext_case(ni, entry, s):
+    net = NETS[ni][1]
+    line = "astext %s %s %s" % (arg(ENTRY_NO[entry]), arg(ni), "x" + u32(s).hex())
+    return Case(line, (lambda net=net, entry=entry, s=s: impl_astext(net, entry, s)),
+                {"net": NETS[ni][0], "entry": entry, "text": u32(s).hex(), "astext": True})
+
+
 def run_line(ni, entry, s):
     return "run %s %s %s" % (arg(ENTRY_NO[entry]), arg(ni), "x" + u32(s).hex())
 
@@ -585,10 +606,15 @@ def model_cases(rng, tier):
                 es = entries_for_generic(rng, fam, False, 3) if nm == "btc" else rng.sample(ENTRIES, 3)
             for e in es:
                 yield mk_case(ni, e, s)
+            if fam in ("pair", "sec", "colon"):
+                for e in {"pair": ("public_pair", "public_key"), "sec": ("sec", "public_key"),
+                          "colon": ("electrum_prv", "electrum_pub", "hierarchical_key")}[fam]:
+                    yield mk_astext_case(ni, e, s)
     # D. electrum seeds (100000 SHA-256 rounds each: rationed)
     for s in electrum_seed_texts(rng, 3 if tier == "quick" else 25):
         for e in ("electrum_seed", "hierarchical_key", "secret", "__call__"):
             yield mk_case(NET_INDEX["btc"], e, s)
+        yield mk_astext_case(NET_INDEX["btc"], "electrum_seed", s)
     # E. the separation predicate evaluated by the model for every table network
     for nm, net in NETS:
         yield Case("kinds_separated " + arg(NET_INDEX[nm]), (lambda net=net: canon(spec_kinds_separated(net))), {"net": nm})
@@ -904,6 +930,11 @@ def prop_cases(rng, tier):
     for s in electrum_seed_texts(rng, 2 if not thorough else 20):
         for e in ("electrum_seed", "hierarchical_key"):
             yield from text_checks("btc", e, s)
+    for nm in ("btc", "xtn", "polis", "ltc"):
+        for name, kw in REGRESSIONS:
+            kw2 = dict(kw)
+            kw2["text"] = u32(kw2["text"]).hex()
+            yield _pc(name, nm, **kw2)
     for nm, _ in NETS:
         for e in UNSUPPORTED:
             for s in ("", "abc", "P:\ud800", "1" * 50):
@@ -917,32 +948,14 @@ def _text_of(pc):
 
 
 def classify(pc, r):
+    """open findings only; everything else (including the six repaired ones, should they return) is a violation"""
     s = _text_of(pc)
     e = pc.inp.get("entry")
-    if pc.name == "total" and r.get("kind") == "raises":
-        if e == "hd_seed" and r["exc"] == "AttributeError":
-            return "hd-seed-missing-api"
-        if r["exc"] == "UnicodeEncodeError" and e in ("bip32_seed", "hd_seed", "hierarchical_key", "secret", "__call__") \
-                and s is not None and ":" in s and s.split(":", 1)[0] in ("", "P", "HP") and _has_surrogate(s.split(":", 1)[1]):
-            return "seed-passphrase-surrogate"
-        return None
-    if pc.name == "pair_range":
-        return "public-pair-unreduced"
     if pc.name == "hd_marker":
         return "hd-prefix-vs-key-marker"
-    if pc.name == "seed_prefix":
-        return "seed-prefix-substring"
     if pc.name == "reserialize":
-        if r.get("object") in ("K", "E") and r.get("in_range") is False:
-            return "public-pair-unreduced"
-        if r.get("object") == "E":
-            return "electrum-text-form"
         if r.get("object") == "C" and r.get("kind") == "text-not-parsed" and _re.search(r"\?\?\?|OP_PUSH(DATA)?[_0-9]", r.get("text", "")):
             return "script-text-not-reparsed"
-        if r.get("object") == "K" and r.get("private") is False and r.get("kind") == "text-not-parsed":
-            net = NETS[NET_INDEX[pc.inp["net"]]][1]
-            if r.get("text", "").startswith(net.parse._sec_prefix):
-                return "sec-text-prefix-not-parsed"
         return None
     return None
 
@@ -952,16 +965,30 @@ def _btc():
 
 
 KNOWN_REPLAYS = {
-    "hd-seed-missing-api": lambda: chk_total(_btc(), "hd_seed", "H:00"),
-    "seed-passphrase-surrogate": lambda: chk_total(_btc(), "__call__", "P:\ud800"),
-    "sec-text-prefix-not-parsed": lambda: chk_reserialize(_btc(), "public_key", "02" + "00" * 31 + "01"),
-    "public-pair-unreduced": lambda: chk_pair_range(_btc(), "public_pair", "%d/even" % (P_ + 1)),
     "hd-prefix-vs-key-marker": lambda: chk_hd_marker(
         _btc(), "bip32_pub", _b58enc(bytes.fromhex("0488b21e") + bytes(41) + b"\x00" + (1).to_bytes(32, "big"))),
-    "seed-prefix-substring": lambda: chk_seed_prefix(_btc(), ":"),
     "script-text-not-reparsed": lambda: chk_reserialize(_btc(), "script", "0xdeadbeef"),
-    "electrum-text-form": lambda: chk_reserialize(_btc(), "electrum_prv", "E:" + "00" * 31 + "01"),
 }
+
+# the seven repaired findings, replayed on every run: any of them failing again is a violation (see prop_cases)
+REGRESSIONS = [
+    ("total", dict(entry="hd_seed", text="H:00")),
+    ("total", dict(entry="__call__", text="P:\ud800")),
+    ("total", dict(entry="bip32_seed", text="P:\ud800")),
+    ("reserialize", dict(entry="public_key", text="02" + "00" * 31 + "01")),
+    ("reserialize", dict(entry="sec", text="04" + "%064x%064x" % (1, GEN0.modular_sqrt(8)))),
+    ("pair_range", dict(entry="public_pair", text="%d/even" % (P_ + 1))),
+    ("total", dict(entry="public_pair", text="%d/even" % (P_ + 1))),
+    ("total", dict(entry="public_key", text="%d/even" % (P_ + 1))),
+    ("total", dict(entry="public_pair", text="%d/even" % (2 ** 256))),
+    ("total", dict(entry="public_key", text="1,-%d" % GEN0.modular_sqrt(8))),
+    ("pair_range", dict(entry="electrum_pub", text="E:%064x%064x" % (P_ + 1, GEN0.modular_sqrt(8)))),
+    ("seed_prefix", dict(text=":")),
+    ("seed_prefix", dict(text="HP:abc")),
+    ("reserialize", dict(entry="electrum_prv", text="E:" + "00" * 31 + "01")),
+    ("reserialize", dict(entry="electrum_pub", text="E:%064x%064x" % (1, GEN0.modular_sqrt(8)))),
+    ("reserialize", dict(entry="hierarchical_key", text="E:" + "00" * 31 + "01")),
+]
 
 
 def replay_input(check, inp):
